@@ -212,3 +212,21 @@ PROPS = {
         "assumptions": ["serde_json's own totality is assumed; allocation failure (abort) is only reachable through a capacity request, which shows as a panic for the sizes generated"],
     },
 }
+
+# engines added in the third session: described once, appended to the rule text of every property that uses them
+_SEQX = (" E-seqx (systematic, no random choice inside a history): add o1 ; [add o2] ; k operations ; one draining match, with o1 over 15 "
+         "representative orders (all seven kinds; zero display; hidden smaller / larger than the display; reserve with replenish amount 0, "
+         "the default and a threshold above the display), o2 over {none, Standard, Iceberg, Reserve} and an alphabet of 22 operations; "
+         "quick: all 1320 histories with k=1 and a seeded sample of 1500 with k=2; thorough: all with k=2 (29040) and k=3 (638880) over 14 shards."
+         " Churn scenario (one random case in thirty): 18-70 makers, then 15-257 cancels / amends / price moves / small matches."
+         " Sparse observation (one random case in five): the harness reads nothing of its own between the calls, incl. pairs of amendments "
+         "that cancel out in every aggregate.")
+_CONCX = (" E-concx (systematic): 504 enumerated two-thread programs (6 target shapes x with/without a second order x 7 calls x 6 calls), each "
+          "under every schedule 'thread 0 runs k steps, thread 1 runs m steps, thread 0 finishes, thread 1 finishes' of a grid; quick: a seeded "
+          "sample of 24 programs x 8 x 12 schedules, thorough: all programs x 9 x 18. In half of all scheduled executions worker 0 is the thread "
+          "that built the level and the id generator.")
+for _p, _spec in PROPS.items():
+    if "seqx" in _spec["engines"]:
+        _spec["rule"] += _SEQX
+    if "concx" in _spec["engines"]:
+        _spec["rule"] += _CONCX
